@@ -213,6 +213,17 @@ func (c *c05Run) postBatch() error {
 			"a block handed to the database client has columns of different lengths: "+nr,
 			map[string]any{"stream": "post-batch", "block": nr, "batch": c.batch})
 	}
+	for _, rg := range b.Ragged {
+		tp := rg
+		if i := strings.Index(rg, ":"); i > 0 {
+			tp = rg[:i]
+		}
+		// the oracle of parser_rect_*: a request object a real parser emitted, seen at the door of the insert service
+		c.r.Violate("C05/ragged-request/"+tp,
+			"a parser handed the insert service a request whose per-row arrays differ in length: "+rg,
+			c.raggedReplay(rg))
+	}
+	c.r.CountN("requests-inspected", b.Requests)
 	c.r.CountN("blocks-captured", b.Blocks)
 	for t, n := range b.Rows {
 		c.r.CountN("rows:"+t, n)
@@ -277,6 +288,30 @@ func (c *c05Run) postBatch() error {
 	c.r.Count("census-ok")
 	c.batch = nil
 	return nil
+}
+
+// raggedReplay: the request of the batch that produces the ragged request object, found by replaying the batch one
+// request at a time in the running child (the fake database refuses a ragged block, nothing is stored)
+func (c *c05Run) raggedReplay(what string) map[string]any {
+	rep := map[string]any{"stream": "post-batch", "ragged": what}
+	for _, s := range c.batch {
+		body, _ := base64.StdEncoding.DecodeString(s.Req.BodyB64)
+		if s.Req.BodyLen > 0 && len(body) == 0 {
+			continue
+		}
+		if _, dead := c.p.Do(c05Request{s.Req.Method, s.Req.Path, s.Req.Headers, body}, c.deadline); dead {
+			if err := c.respawn(); err != nil {
+				break
+			}
+			continue
+		}
+		if b, err := c.p.Blocks(); err == nil && len(b.Ragged) > 0 {
+			rep["route"], rep["shape"], rep["request"], rep["stream"] = s.Route, s.Shape, s.Req, s.Stream
+			return rep
+		}
+	}
+	rep["batch"] = c.batch
+	return rep
 }
 
 // ---- raw byte/mutation stream (fuzzing): liveness only
